@@ -258,9 +258,6 @@ Definition bn_from_hex (neg : bool) (int : str) : res bint :=
   | Err e => Err e
   | Ok n => Ok (if neg then bunm n else n)
   end.
-(* decimal integer literal '^[+-]?[0-9]+$': bint.fromstring -> frombase(s, 10) *)
-Definition bn_from_dec (s : str) : res bint := frombase s 10.
-
 Definition with_bits (v : bint) (bits : option Z) : res bint :=
   match bits with
   | None => Ok v
@@ -271,3 +268,41 @@ Definition tohexint (v : bint) (bits : option Z) : res str :=
 Definition tobinint (v : bint) (bits : option Z) : res str :=
   match with_bits v bits with Err e => Err e | Ok w => tobase w 2 (Some true) end.
 Definition todecint (v : bint) : res str := tobase v 10 (Some false).
+
+(* decimal integer literal '^[+-]?[0-9]+$' (bn.from, decimal branch, after
+   "fix: decimal integer literals that do not fit the compiler's big numbers are read as floats"):
+     local n = bn.parse(v)                                   -- bint.fromstring -> frombase(v, 10)
+     local digits = bn.isbint(n) and v:match('^0*(%d+)$')    -- only unsigned digit strings match
+     if digits and bn.todecint(n) ~= digits then n = tonumber(v) end   -- a float
+   The float value itself is not modelled (C14): LFloat stands for "read as a float". *)
+Inductive lit := LInt (x : bint) | LFloat.
+
+(* the capture of '^0*(%d+)$' on a digit string: leading zeros go, one digit stays *)
+Fixpoint strip0 (s : str) : str :=
+  match s with
+  | c :: r => match r with [] => s | _ => if c =? 48 then strip0 r else s end
+  | [] => []
+  end.
+Definition dec_digits (s : str) : option str :=
+  match s with [] => None | _ => if forallb is_digit s then Some (strip0 s) else None end.
+
+Fixpoint str_eqb (a b : str) : bool :=
+  match a, b with
+  | [], [] => true
+  | x :: a', y :: b' => (x =? y) && str_eqb a' b'
+  | _, _ => false
+  end.
+
+Definition bn_from_dec (s : str) : res lit :=
+  match frombase s 10 with
+  | Err e => Err e
+  | Ok n =>
+      match dec_digits s with
+      | None => Ok (LInt n)
+      | Some digits =>
+          match todecint n with
+          | Err e => Err e
+          | Ok t => if str_eqb t digits then Ok (LInt n) else Ok LFloat
+          end
+      end
+  end.
